@@ -8,7 +8,7 @@ ID = "C20"
 LEAN_MODULES = ["LhasaV.Props.C20"]
 VH_FEATURES = ["reader"]
 PER_OP_SECONDS = 30
-THEOREMS = {"fresh_ledger_empty": "partial: base case only; the inductive step over all histories is in progress"}
+THEOREMS = {'free_releases_all': 'full: every stream, policy, legal history', 'free_releases_all_prefix': 'full: abandoned at any point', 'legal_iff_segments': 'full', 'decoders_exact': 'full: decoder objects counted exactly on legal histories', '(allocation failure)': 'not proved: observed by fault injection under ASan'}
 TRUSTED = ["ghost allocation ledger of LhasaV.Model.Reader (header objects with reference counts and their string blocks, decoders); "
            "tied to the C by comparing the number of live heap blocks after lha_reader_free + lha_input_stream_free on every history",
            "harness/ops_reader.c: link-time --wrap of malloc/calloc/realloc/free/strdup counts live blocks and injects failures"]
